@@ -1,0 +1,6 @@
+//go:build !verif
+
+package valuenotifier
+
+// verifBeforeSelect is a no-op outside of verification builds.
+func verifBeforeSelect(*Listener) {}
